@@ -27,6 +27,14 @@ def maxL : List Nat → Option Nat
   | [] => none
   | x :: xs => some (xs.foldl max x)
 
+/-- what the loops leave in cell `(frame f, person p, keypoint k)`: the person's `k`-th keypoint if frame `f` is present and has a person `p` with that many keypoints, zeros otherwise -/
+def opCell (sc : Scalar S) (frames : List (OPFrame S)) (f p k : Nat) : S × S × S :=
+  match frames.find? (·.id == f) with
+  | some fr => match fr.people[p]? with
+    | some person => (personKeypoints person).getD k (sc.zero, sc.zero, sc.zero)
+    | none => (sc.zero, sc.zero, sc.zero)
+  | none => (sc.zero, sc.zero, sc.zero)
+
 /-- `load_openpose`. `none`: `max()` of no frames, a frame id beyond the frame count, more keypoints than the header has points, a component list whose length is not a multiple of 3. -/
 def loadOpenpose (sc : Scalar S) (isZero : S → Bool) (totalPoints : Nat) (frames : List (OPFrame S)) (fps : S) (numFrames : Option Nat) : Option (PBody S) := do
   let maxId ← maxL (frames.map (·.id))
@@ -35,12 +43,7 @@ def loadOpenpose (sc : Scalar S) (isZero : S → Bool) (totalPoints : Nat) (fram
   if frames.any (fun fr => fr.id ≥ n) then none
   else if frames.any (fun fr => fr.people.any fun person => (personKeypoints person).length > totalPoints ∨ person.any fun nums => nums.length % 3 ≠ 0) then none
   else
-    let cell (f p k : Nat) : S × S × S :=
-      match frames.find? (·.id == f) with
-      | some fr => match fr.people[p]? with
-        | some person => (personKeypoints person).getD k (sc.zero, sc.zero, sc.zero)
-        | none => (sc.zero, sc.zero, sc.zero)
-      | none => (sc.zero, sc.zero, sc.zero)
+    let cell := opCell sc frames
     let data : A4 S := (List.range n).map fun f => (List.range people).map fun p => (List.range totalPoints).map fun k => [(cell f p k).1, (cell f p k).2.1]
     let conf : A3 S := (List.range n).map fun f => (List.range people).map fun p => (List.range totalPoints).map fun k => (cell f p k).2.2
     some (mkBody .numpy isZero fps data conf (some (deriveMissing isZero data conf)))
